@@ -58,3 +58,48 @@ def same(np, a, b):
     """bit-exact equality incl. dtype and shape."""
     return (a.dtype == b.dtype and a.shape == b.shape
             and a.tobytes() == np.ascontiguousarray(b).tobytes())
+
+
+def forked(fn, *args, timeout=300):
+    """run fn(*args) -> JSON-able dict in a forked child, so that a crash of the interpreter (a dangling
+    memory-map view is SIGSEGV, not an exception) is OBSERVED instead of suffered"""
+    import json
+    import signal
+    import select
+    r, w = os.pipe()
+    pid = os.fork()
+    if pid == 0:
+        try:
+            os.close(r)
+            try:
+                out = fn(*args)
+            except BaseException as e:      # noqa
+                import traceback
+                out = {'reproduced': False, 'detail': 'replay error ' + traceback.format_exc()[-800:]}
+            os.write(w, json.dumps(out, default=str).encode())
+        finally:
+            os._exit(0)
+    os.close(w)
+    data = b''
+    import time
+    t0 = time.time()
+    while True:
+        rl, _, _ = select.select([r], [], [], 1.0)
+        if rl:
+            chunk = os.read(r, 65536)
+            if not chunk:
+                break
+            data += chunk
+        if time.time() - t0 > timeout:
+            os.kill(pid, signal.SIGKILL)
+            break
+    _, status = os.waitpid(pid, 0)
+    os.close(r)
+    if os.WIFSIGNALED(status):
+        sig = os.WTERMSIG(status)
+        return {'reproduced': True, 'detail': f'the interpreter was killed by {signal.Signals(sig).name} while replaying '
+                                              f'(use of memory that is no longer mapped)'}
+    try:
+        return json.loads(data.decode())
+    except ValueError:
+        return {'reproduced': False, 'detail': 'replay child produced no result'}
